@@ -19,7 +19,7 @@
    arguments via AssignFollows, repeated names), list / dict (comprehensions), slice, comprehension,
    lambda, f-string splitting (findBrace).  The lexer is modelled completely. *)
 From Coq Require Import String Sorted.
-From PlzV Require Import Base.Harness Model.C19 Proof.C19 Proof.C19_Parser Proof.C19_Entry.
+From PlzV Require Import Base.Harness Model.C19 Proof.C19 Proof.C19_Parser Proof.C19_Entry Proof.C19_Round2.
 
 (* The property at full strength: with SOME finite stack, every byte string either parses or is
    rejected with a positioned error - never an internal error, never a crash. *)
@@ -177,3 +177,46 @@ Example C19_entry_nonvacuous :
   /\ safe_order true true false false [SDefer; SNewLexer; SAlloc; SLoop; SReturn] = false
   /\ parse_data_with [SDefer; SNewLexer; SAlloc; SLoop; SReturn] true true isld 20 [9%N] = ECrash.
 Proof. vm_compute. repeat split; tauto. Qed.
+
+(* ---- round-2 follow-up: printing the error, one parser over many files, concurrent failing parses ---------- *)
+
+(* PRINTING the positioned error never panics: for every displayed line (any length), every column >= 1 (what
+   File.Pos produces), with and without readLine context, coloured or plain, errorStack.errorMessage - the guard
+   chain and the line accesses gotrans reads off errors.go - yields the full or the short message. *)
+Theorem C19_render_safe :
+  forall (ctx : bool) (linelen col : Z) (coloured : bool),
+    (0 <= linelen)%Z -> (1 <= col)%Z -> render ctx linelen col coloured <> RPanic.
+Proof. exact render_safe. Qed.
+Print Assumptions C19_render_safe.
+
+(* ONE parser, ANY number of files of any kind (does not parse / does not interpret / fine), any capacity >= 1 of
+   the parse semaphore: no call of Parser.ParseFile or Parser.ParseReader (their acquire/release skeletons as
+   gotrans reads them off parser.go) ever waits, and every slot is free afterwards. Holds for EVERY skeleton that
+   passes the executable criterion `balanced`; the leaky arrangement does not, and blocks at file cap+1 for every cap. *)
+Theorem C19_limiter_safe :
+  (forall steps, balanced steps = true -> forall cap, (1 <= cap)%nat -> forall outs k, run_seq cap steps outs 0 k = SeqDone 0)
+  /\ (forall cap, (1 <= cap)%nat -> forall outs,
+        run_seq cap parse_file_steps outs 0 0 = SeqDone 0 /\ run_seq cap parse_reader_steps outs 0 0 = SeqDone 0)
+  /\ (balanced leaky_steps = false /\ forall cap, run_seq cap leaky_steps (repeat FoParseErr (S cap)) 0 0 = SeqBlocked cap).
+Proof. exact (conj balanced_never_blocks (conj limiter_safe (conj leaky_not_balanced leaky_blocks))). Qed.
+Print Assumptions C19_limiter_safe.
+
+(* ANY schedule of ANY number of goroutines that report errors at the same time (each reading and writing the files
+   map of the error value of its own parse, as errorStack.file initialises it in errors.go) is free of data races;
+   with one shared map any two writers race. *)
+Theorem C19_error_files_race_free :
+  (forall l : list faccess, racy files_owner l = false)
+  /\ (forall pre mid post g h, g <> h -> racy FilesShared (pre ++ mkAcc g true :: mid ++ mkAcc h true :: post) = true).
+Proof. exact (conj error_files_never_racy shared_racy). Qed.
+Print Assumptions C19_error_files_race_free.
+
+(* Non-vacuity: the caret inside the line, at its end (padded), beyond it (short message), without context; a
+   sequence with every kind of file on a 2-slot semaphore; a schedule with writers of three goroutines. *)
+Example C19_round2_nonvacuous :
+  render true 9 4 true = RFull /\ render true 9 10 true = RFull /\ render true 9 14 true = RShort
+  /\ render false 0 14 true = RShort /\ render true 9 14 false = RShort
+  /\ run_seq 2 parse_file_steps [FoParseErr; FoParseErr; FoParseErr; FoInterpErr; FoOk] 0 0 = SeqDone 0
+  /\ run_seq 2 leaky_steps [FoParseErr; FoOk; FoParseErr; FoInterpErr; FoOk] 0 0 = SeqBlocked 3
+  /\ racy files_owner [mkAcc 0 true; mkAcc 1 false; mkAcc 2 true; mkAcc 1 true] = false
+  /\ racy FilesShared [mkAcc 0 true; mkAcc 1 false] = true.
+Proof. vm_compute. repeat split. Qed.
